@@ -29,16 +29,17 @@
    inside the search range (PeakRules, property tier).                        *)
 EXTENDS PeakRules, Rat, TLC, Json, FiniteSetsExt
 
-CONSTANTS FUnit, Freq, Shapes, Sigmas, SigmaElse, LWs, NWs, SFs, SRanges, Export
+CONSTANTS FUnit, Freq, Shapes, Sigmas, SigmaElse, LWs, NWs, SFs, SRanges, Sides, Export
 
 NFq == Len(Freq)     \* Shapes: a set of records [a |-> curve, peak |-> index]
-VARIABLES a, p0, sp, se, lw, nw, sf, rng, done, res
-vars == <<a, p0, sp, se, lw, nw, sf, rng, done, res>>
+VARIABLES a, p0, sp, se, side, lw, nw, sf, rng, done, res
+vars == <<a, p0, sp, se, side, lw, nw, sf, rng, done, res>>
 
 A == a
 P0 == p0
-\* sigma_A at the peak and its right neighbour is `sp`, elsewhere `se`
-SigA(j) == IF j = P0 \/ j = P0 + 1 THEN sp ELSE se
+\* sigma_A at the peak and ONE neighbour (the right one for side = 1, the left one for side = -1) is `sp`, elsewhere `se`:
+\* the other neighbour can then carry the peak of A / sigma_A (criterion iv)
+SigA(j) == IF j = P0 \/ j = P0 + side THEN sp ELSE se
 
 \* verdict values: 1 pass, 0 fail, 2 tie (either)
 V(passSure, failSure) == IF passSure THEN 1 ELSE IF failSure THEN 0 ELSE 2
@@ -110,12 +111,12 @@ ClaVI == Merge({ V(RLt(SigA(P0), Theta(b)), RLt(Theta(b), SigA(P0))) : b \in Ban
 IsInstance == P_Allowed(A, rng[1], rng[2]) = {P0}
 
 Init == /\ \E s \in Shapes : a = s.a /\ p0 = s.peak
-        /\ sp \in Sigmas /\ se \in SigmaElse
+        /\ sp \in Sigmas /\ se \in SigmaElse /\ side \in Sides
         /\ lw \in LWs /\ nw \in NWs /\ sf \in SFs /\ rng \in SRanges
         /\ done = FALSE /\ res = <<>>
 Evaluate == /\ ~done /\ IsInstance /\ done' = TRUE
             /\ res' = <<RelI, RelII, RelIII, ClaI, ClaII, ClaIII, ClaIV, ClaV, ClaVI>>
-            /\ UNCHANGED <<a, p0, sp, se, lw, nw, sf, rng>>
+            /\ UNCHANGED <<a, p0, sp, se, side, lw, nw, sf, rng>>
 Next == Evaluate
 
 BandTableTotal == Cardinality(Bands) \in {1, 2}
@@ -124,5 +125,5 @@ MoreWindowsNeverFailII == done /\ res[2] = 1 => \A l2 \in LWs, n2 \in NWs : (l2 
 SmallerStdNeverFailsV  == done /\ res[8] = 1 => \A s2 \in SFs : RLe(Q(s2[1], s2[2]), SFq) =>
                               \A b \in Bands : RLt(Q(s2[1], s2[2]), RMul(Eps(b), F0))
 ExportCase == (Export /\ done) =>
-    PrintT(ToJson([a |-> a, p0 |-> p0, sp |-> sp, se |-> se, lw |-> lw, nw |-> nw, sf |-> sf, rng |-> rng, res |-> res]))
+    PrintT(ToJson([a |-> a, p0 |-> p0, sp |-> sp, se |-> se, side |-> side, lw |-> lw, nw |-> nw, sf |-> sf, rng |-> rng, res |-> res]))
 =============================================================================
